@@ -53,11 +53,11 @@ def _force_one(name, N, target):
             an = SpectrumAnalyzer(np.zeros(N), 2.0, scheduler=name, Jdes=target, Kdes=10, olap=0.5,
                                   force_target_nf=True, win="hann")
             plan = an.plan()
-    except RuntimeError as e:
-        if "forced number" in str(e):
-            return 0, []  # documented outcome: an error
-        return 0, [fw.fail(f"force/{name}/raises", f"force_target_nf target={target} N={N} {name}: RuntimeError {e}", case)]
-    except BaseException as e:  # noqa: BLE001
+    except fw.Timeout:
+        return 0, [fw.fail(f"force/{name}/timeout", f"force_target_nf target={target} N={N} {name}: no result after 600 s", case)]
+    except (RuntimeError, ValueError):
+        return 0, []  # documented outcome: "exactly that count or an error"
+    except BaseException as e:  # noqa: BLE001  (SystemExit, ZeroDivisionError, ... are crashes, not the documented error)
         return 0, [fw.fail(f"force/{name}/raises", f"force_target_nf target={target} N={N} {name}: {type(e).__name__}: {e}", case)]
     nf = len(plan["f"])
     if nf != target or int(plan["nf"]) != target:
